@@ -1,7 +1,10 @@
-import Probe.InvData
+import Core.InvData
+set_option linter.unusedSectionVars false
 namespace Sodg
 
-theorem unread_setPers_stored_of_mem (g : G) (ms : List Nat) (hn : ms.Nodup) (v : Nat) (hv : v ∈ ms) (hc : v < cap g)
+variable {L D : Type} [DecidableEq L] [Inhabited D]
+
+theorem unread_setPers_stored_of_mem (g : G L D) (ms : List Nat) (hn : ms.Nodup) (v : Nat) (hv : v ∈ ms) (hc : v < cap g)
     (hp : pers g v ≠ .stored) : unread (setPers g v .stored) ms = unread g ms + 1 := by
   unfold unread
   induction ms with
@@ -24,7 +27,7 @@ theorem unread_setPers_stored_of_mem (g : G) (ms : List Nat) (hn : ms.Nodup) (v 
       simp only [List.filter_cons, e]
       split <;> simp_all
 
-theorem inv_put (g g' : G) (v : Nat) (d) (hi : Inv g) (hpres : tag g v ≠ 0) (h : put g v d = some g') : Inv g' := by
+theorem inv_put (g g' : G L D) (v : Nat) (d) (hi : Inv g) (hpres : tag g v ≠ 0) (h : put g v d = some g') : Inv g' := by
   unfold put at h
   split at h
   next hv =>
@@ -83,17 +86,17 @@ theorem inv_put (g g' : G) (v : Nat) (d) (hi : Inv g) (hpres : tag g v ≠ 0) (h
         · simp [pers_setPers, hvw]
   · cases h
 
-theorem inv_add (g g' : G) (v : Nat) (hi : Inv g) (h : add g v = some g') : Inv g' := by
+theorem inv_add (g g' : G L D) (v : Nat) (hi : Inv g) (h : add g v = some g') : Inv g' := by
   unfold add at h
   split at h
   next hv =>
     split at h
     next ht =>
       cases h
-      have tag' : ∀ w, tag { g with vs := g.vs.setIfInBounds v { blank with branch := 1 } } w =
+      have tag' : ∀ w, tag { g with vs := g.vs.setIfInBounds v { (blank : Vertex L D) with branch := 1 } } w =
           if v = w then 1 else tag g w := by
         intro w; unfold tag cap at *; by_cases hw : w < g.vs.size <;> grind [blank]
-      have pers' : ∀ w, v ≠ w → pers { g with vs := g.vs.setIfInBounds v { blank with branch := 1 } } w = pers g w := by
+      have pers' : ∀ w, v ≠ w → pers { g with vs := g.vs.setIfInBounds v { (blank : Vertex L D) with branch := 1 } } w = pers g w := by
         intro w hne; unfold pers; by_cases hw : w < g.vs.size <;> grind
       have hvn : ∀ c, 2 ≤ c → c < 16 → v ∉ mem g c := by
         intro c h2 h16 hm; have := (hi.memb c h2 h16 v hm).2; omega
@@ -118,7 +121,7 @@ theorem inv_add (g g' : G) (v : Nat) (hi : Inv g) (h : add g v = some g') : Inv 
     · cases h; exact hi
   · cases h
 
-theorem inv_setEdges (g : G) (v : Nat) (e) (hi : Inv g) : Inv (setEdges g v e) := by
+theorem inv_setEdges (g : G L D) (v : Nat) (e) (hi : Inv g) : Inv (setEdges g v e) := by
   refine ⟨hi.brsz, hi.stsz, hi.s0, hi.s1, ?_, ?_, ?_, ?_, ?_⟩
   · intro w hw; simpa using hi.taglt w (by simpa using hw)
   · intro c h2 h16 w hw; simpa using hi.memb c h2 h16 w hw
@@ -128,7 +131,7 @@ theorem inv_setEdges (g : G) (v : Nat) (e) (hi : Inv g) : Inv (setEdges g v e) :
     show cnt g c = _
     rw [hi.count c h2 h16]; symm; apply unread_congr; intro x _; simp
 
-theorem firstEmpty_spec (g : G) (b : Nat) (h : firstEmpty g = some b) : b < 16 ∧ mem g b = [] := by
+theorem firstEmpty_spec (g : G L D) (b : Nat) (h : firstEmpty g = some b) : b < 16 ∧ mem g b = [] := by
   unfold firstEmpty at h
   have := List.find?_some h
   have hm := List.mem_of_find?_eq_some h
